@@ -25,6 +25,7 @@ ASSUMPTIONS = ["comparison of a case stops at the first report step at which EPA
 H = 3600
 UNITS = ["CFS", "GPM", "MGD", "IMGD", "AFD", "LPS", "LPM", "MLD", "CMH", "CMD"]
 HTOL, QTOL = 0.01, 2e-5
+HSENS = 1e-3     # head uncertainty fed into the conditioning term of flow comparisons
 COMMON = {"reverse", "closed", "cv", "K5", "D100", "D600", "C60", "C140", "L50", "L2000", "hpump1", "hpump2", "hpump3", "ppump", "valve",
           "dem2", "dem0", "demneg", "pat1", "pat5", "near_min", "near_max", "vcurve", "headpat", "as_tank", "pdd", "mult2", "mult05", "pstart1h",
           "pstart90m", "hyd30", "pat30", "pat2h", "clock3h", "revorder"}
@@ -214,6 +215,13 @@ def compare(s, a, b, la, lb, upto, counts, near=0.05, limit_steps=()):
         msg = None
         closed_now = set(l["n"] for l in s["links"] if float(a.link["status"][l["n"]][i]) == 0 and float(b.link["status"][l["n"]][i]) == 0)
         conn = connected_to_source(s, closed_now)
+        # conditioning: the flow of a pipe whose head loss is a few millimetres reacts to a head change dh with
+        # dq = q / (1.852 |loss|) dh; heads (tank levels) of the two runs differ by up to HSENS from file precision alone
+        qsens = {}
+        for l in s["links"]:
+            q_ = max(abs(float(a.link["flowrate"][l["n"]][i])), abs(float(b.link["flowrate"][l["n"]][i])))
+            loss = abs(float(b.node["head"][l["a"]][i]) - float(b.node["head"][l["b"]][i]))
+            qsens[l["n"]] = q_ / (1.852 * max(loss, 1e-9)) * HSENS if l["t"] == "pipe" and float(b.link["status"][l["n"]][i]) != 0 else 0.0
         for nd in s["nodes"]:
             nm = nd["n"]
             if nm not in conn:
@@ -223,6 +231,8 @@ def compare(s, a, b, la, lb, upto, counts, near=0.05, limit_steps=()):
                 if key == "pressure" and nd["t"] == "res":
                     continue        # a reservoir has no pressure (EPANET reports head - base head)
                 x, y = float(a.node[key][nm][i]), float(b.node[key][nm][i])
+                if key == "demand" and nd["t"] in ("tank", "res"):
+                    tol = tol + sum(qsens[l["n"]] for l in s["links"] if nm in (l["a"], l["b"]))     # = net flow of its links
                 if abs(x - y) > tol + 1e-3 * max(abs(x), abs(y)) + (pslack if key != "demand" else 0.0):
                     msg = "%s of %s at t=%d: %s %.6g, %s %.6g" % (key, nm, a.times[i], la, x, lb, y)
                     break
@@ -232,7 +242,7 @@ def compare(s, a, b, la, lb, upto, counts, near=0.05, limit_steps=()):
             for l in s["links"]:
                 nm = l["n"]
                 x, y = float(a.link["flowrate"][nm][i]), float(b.link["flowrate"][nm][i])
-                if abs(x - y) > QTOL + 1e-3 * max(abs(x), abs(y)):
+                if abs(x - y) > QTOL + 1e-3 * max(abs(x), abs(y)) + qsens[nm]:
                     msg = "flow of %s at t=%d: %s %.6g, %s %.6g" % (nm, a.times[i], la, x, lb, y)
                     break
                 sx, sy = float(a.link["status"][nm][i]), float(b.link["status"][nm][i])
